@@ -2,6 +2,7 @@
 #include "zoo.h"
 namespace {
    struct Operand_check {
+      void generative() { }
       int nodes = 0, checks = 0;
       template<class I> void node(const I&) { ++nodes; }
       void operands(bool ok) { vp_assert(ok, 1); ++checks; }
